@@ -87,6 +87,11 @@ def histories(tier):
                       {"op": "eval", "env": "E1", "names": ["x"], "vars": "v", "listvar": "xs", "keep": "B"},
                       {"op": "eval", "env": "E1", "names": ["x"], "vars": "v", "listvar": "xs", "keep": "B"},
                       {"op": "eval", "env": "E1", "names": ["x"], "vars": "v", "listvar": "xs", "keep": "B"}])
+        # ... and an empty list binding as the left operand (a fast path for the empty case must not alias the binding)
+        for expr in ("acc + xs", "size(acc + xs) + size(acc)", "acc + [1] + acc", "xs.map(e, acc + [e])[1]"):
+            H.append([{"op": "env", "env": "E1", "runner": r}, {"op": "prog", "env": "E1", "expr": expr},
+                      {"op": "eval", "env": "E1", "names": ["x"], "vars": "v", "listvar": "xs", "emptyvar": "acc", "keep": "B"},
+                      {"op": "eval", "env": "E1", "names": ["x"], "vars": "v", "listvar": "xs", "emptyvar": "acc", "keep": "B"}])
         # C: repeated evaluation with the same bindings; packaged + declared environment after a plain one
         H.append([{"op": "env", "env": "E1", "runner": r}, {"op": "prog", "env": "E1", "expr": "a.b + a.c"},
                   {"op": "eval", "env": "E1", "names": ["a.b", "a.c"], "vars": "v"},
@@ -196,6 +201,8 @@ def execute(hist, vals, vars):
             b = {st["mapvar"]: ct.MapType({ct.StringType("k"): b[st["names"][0]]})}
         if st.get("listvar"):
             b = {st["listvar"]: ct.ListType([b[st["names"][0]], ct.IntType(2)])}
+            if st.get("emptyvar"):
+                b[st["emptyvar"]] = ct.ListType([])
         if st.get("keep"):
             kept[st["keep"]] = b
         return b
